@@ -296,8 +296,7 @@ def job_history(p: Dict[str, Any]) -> Dict[str, Any]:
     bad_probe = [k for k, v in s_init["probes"].items() if not v.startswith("ok:")]
     if pre or bad_probe:
         # not pristine (an earlier history left the process dirty): ask for a fresh process
-        _suicide()
-        return {"dirty_start": True, "detail": (pre + bad_probe)[:5]}
+        return {"dirty_start": True, "detail": (pre + bad_probe)[:5], "_retire": True}
     steps = []
     prev_diff: List[str] = []
     dirty = False
@@ -315,9 +314,9 @@ def job_history(p: Dict[str, Any]) -> Dict[str, Any]:
                       "state": digest([cur["ns"], cur["conv"], cur["nnx"], cur["eqx"], cur["probes"]])[:14]})
         if [x for x in d_all if not x.startswith("probe jit_helper_after_conversion")]:
             dirty = True  # process-wide state changed (an event-local poisoned jit helper is not process state)
-    if dirty and not _try_repair(w):
-        _suicide()
-    return {"steps": steps, "init_state": digest([s_init["ns"], s_init["conv"], s_init["nnx"], s_init["eqx"], s_init["probes"]])[:14]}
+    retire = bool(dirty and not _try_repair(w))
+    return {"steps": steps, "_retire": retire,
+            "init_state": digest([s_init["ns"], s_init["conv"], s_init["nnx"], s_init["eqx"], s_init["probes"]])[:14]}
 
 
 def _try_repair(w) -> bool:
